@@ -26,6 +26,9 @@ func TestC12_History(t *testing.T) {
 	rapid.Check(t, func(rt *rapid.T) {
 		sc := genHistory(rt, c12Weights())
 		sc.EndOnClose = rapid.Bool().Draw(rt, "endOnClose")
+		if rapid.IntRange(0, 2).Draw(rt, "cancelend") == 0 {
+			sc.CancelEnd = rapid.SampledFrom([]string{"socket", "state", "backfill", "slow", "disconnected"}).Draw(rt, "cancelcause")
+		}
 		journal("C12", "c12hist", sc)
 		v, labels, _ := runHistory(&sc, known != nil, "C12")
 		journalDone()
